@@ -71,7 +71,8 @@ extern size_t mpt_queue_prepare(MPT_STRUCT(queue) *queue, size_t len)
 	size_t left;
 	
 	if (len > (left = queue->max - queue->len)) {
-		if ((SIZE_MAX-left) < len) {
+		/* new size is content plus request, rounded up for alignment */
+		if ((SIZE_MAX - sizeof(void *) - queue->len) < len) {
 			errno = EOVERFLOW;
 			return 0;
 		}
